@@ -594,7 +594,13 @@ def malformed_oracle(spec):
         if kind == 'merge_duplicate':
             a = pe.Obs(samples, names, idl=idl)
             b = pe.Obs([samples[c0] * 2], [names[c0]], idl=[idl[c0]])
-            return pe.merge_obs([a, b])
+            if k % 3 == 0:
+                return pe.merge_obs([a, b])
+            # the duplicated replica in list entries that are not neighbours
+            e = names[0].split('|')[0]
+            mids = [pe.Obs([np.arange(6.0 + j) * 0.1], ['%s|zz_mid%d' % (e, j)]) for j in range(1 + (k // 3) % 3)]
+            first = pe.Obs([samples[c0]], [names[c0]], idl=[idl[c0]]) if k % 3 == 1 else a
+            return pe.merge_obs([first] + mids + [b])
         raise RuntimeError(kind)
     try:
         res = attempt()
